@@ -144,6 +144,11 @@ def features():
         # a chunked section holding nothing but FIXED-SIZE structs made of fixed-length strings: sanitised all the same
         {'name': 'Tag3', 'body': [F('t', 'string', length='3'), F('n', 'char')]},
         {'name': 'ChunkOfFixed', 'body': [F('id', 'char'), CH(F('tag', 'Tag3'), A('tags', 'Tag3', length='2'), F('m', 'char')), F('after', 'string', length='2')]},
+        # a class without any named member that still has a chunked section (hardcoded strings and breaks), alone and inside another section
+        {'name': 'Banner', 'body': [CH(F(None, 'string', 'hi'), BR, F(None, 'string', 'yo'))]},
+        {'name': 'BannerHolder', 'body': [F('id', 'char'), CH(F('b', 'Banner'), BR, F('s', 'string'), BR, F('b2', 'Banner'), F('t', 'string'))]},
+        # an optional array counted by an optional length field
+        {'name': 'LenOptArr', 'body': [F('id', 'char'), L('zs_len', 'char', optional='true'), A('zs', 'short', length='zs_len', optional='true')]},
         {'name': 'ChunkOfStructs', 'body': [F('id', 'char'), CH(F('n', 'Named'), F('p', 'PadEnc'), A('ps', 'Named', length='2')), F('after', 'string', length='2')]},
         # struct-typed fields whose class has no named field at all
         {'name': 'Magic', 'body': [F(None, 'string', 'EO', length='2'), F(None, 'char', '9')]},
@@ -189,6 +194,11 @@ def names():
     t['map']['structs'] += [{'name': 'Pub', 'body': [F('p', 'Protocol')]},
                             {'name': 'HTTPServer2Go', 'body': [F('port', 'short'), F('pub', 'Pub'), F('net', 'Net')]}]
     t['net']['structs'] += [{'name': 'Map', 'body': [F('m', 'char'), F('e', 'EIFData')]}]
+    # members named like the words an implementation would pick for its own locals and attributes (none of them is a Python keyword or a name
+    # the generated code uses today)
+    t['']['structs'] += [{'name': 'Span', 'body': [F('start', 'char'), F('end', 'short'), F('size', 'char'), F('length', 'char'), F('position', 'short'), F('value', 'char'),
+                                                    F('count', 'char'), F('index', 'char'), F('old', 'char'), F('mode', 'char'), F('name', 'string', length='2'), F('offset', 'char'),
+                                                    F('remaining', 'char'), F('chunk', 'char'), F('buffer', 'char'), F('text', 'string')]}]
     # an enum value called None (spelled None_ as a Python member) used as a packet action; directories sharing a leaf name
     # (net/server, pub/server) referencing each other's types
     t['net']['enums'][1]['values'].append(('None', '0'))
